@@ -361,7 +361,7 @@ _counter = [0]
 
 
 class Snap:
-    __slots__ = ("cls", "before", "bases", "anns", "name")
+    __slots__ = ("cls", "before", "bases", "anns", "name", "defs")
 
     def take(self, cls):
         self.cls = cls
@@ -369,10 +369,22 @@ class Snap:
         self.bases = cls.__bases__
         self.anns = dict(cls.__dict__.get("__annotations__", {}))
         self.name = (cls.__name__, cls.__qualname__, cls.__module__)
+        # the field definitions in the body are part of "the class as it was": their own state (every slot,
+        # by identity) must survive a rejected decoration, or a corrected retry sees a different class
+        self.defs = {k: self._ca_state(v) for k, v in self.before.items() if type(v).__name__ == "_CountingAttr"}
+
+    @staticmethod
+    def _ca_state(ca):
+        miss = Snap
+        return tuple((sl, getattr(ca, sl, miss)) for sl in type(ca).__slots__)
 
     def untouched(self):
         cls = self.cls
         after = dict(vars(cls))
+        for k, st in self.defs.items():
+            now = self._ca_state(self.before[k])
+            if len(now) != len(st) or any(a[1] is not b_[1] and a[1] != b_[1] for a, b_ in zip(now, st)):
+                return False
         if list(after) != list(self.before):
             return False
         if any(after[k] is not self.before[k] for k in after):
